@@ -212,6 +212,66 @@ pub fn run_case(case: &Case, st: &mut Stats) -> CaseResult {
     if hash_exact {
         by_hash.insert(stack[0].hash, (residual(&ctx, &stack[0].model), vec![]));
     }
+    // systematic sweep: every state reachable by one or two decisions from the initial state is visited with
+    // decide/pop, checked, and entered into the hash -> residual table (sibling states are where a residual
+    // hash that forgets part of the residual collides)
+    if n > 0 {
+        for v1 in 0..n {
+            for b1 in [false, true] {
+                let root = stack[0].clone();
+                let r1 = s.decide(Literal::new(VarLabel::new_usize(v1), b1));
+                if matches!(r1, DecisionResult::UNSAT) {
+                    continue;
+                }
+                let rec1 = observe(&ctx, &s, vec![(v1, b1)], Some(&root))?;
+                check_state(&ctx, &s, &rec1, &format!("sweep: decide(x{} = {})", v1, b1))?;
+                let mut frontier: Vec<Rec> = vec![rec1.clone()];
+                for v2 in 0..n {
+                    if rec1.model[v2].is_some() {
+                        continue;
+                    }
+                    for b2 in [false, true] {
+                        let r2 = s.decide(Literal::new(VarLabel::new_usize(v2), b2));
+                        if matches!(r2, DecisionResult::UNSAT) {
+                            continue;
+                        }
+                        let rec2 = observe(&ctx, &s, vec![(v1, b1), (v2, b2)], Some(&rec1))?;
+                        check_state(&ctx, &s, &rec2, &format!("sweep: decide(x{} = {}), decide(x{} = {})", v1, b1, v2, b2))?;
+                        frontier.push(rec2);
+                        s.pop();
+                    }
+                }
+                s.pop();
+                if hash_exact {
+                    for rec in frontier {
+                        let r = residual(&ctx, &rec.model);
+                        if let Some((r0, d0)) = by_hash.get(&rec.hash) {
+                            ensure!(
+                                *r0 == r,
+                                "C09/equal-hash-different-residual",
+                                "sweep: decisions {:?} and {:?} give the same hash {} but different residuals {:?} vs {:?}",
+                                d0,
+                                rec.decisions,
+                                rec.hash,
+                                r0,
+                                r
+                            );
+                        } else {
+                            by_hash.insert(rec.hash, (r, rec.decisions.clone()));
+                        }
+                    }
+                }
+                st.bump("sweep_roots");
+            }
+        }
+        // the sweep must leave the solver exactly where it started
+        let now = observe(&ctx, &s, vec![], None)?;
+        ensure!(
+            now.model == stack[0].model && now.hash == stack[0].hash && now.is_sat == stack[0].is_sat,
+            "C09/pop-did-not-restore-state",
+            "after the decide/pop sweep the initial state is not restored"
+        );
+    }
     let mut pops_then_other = 0u64;
     let mut last_popped: Option<(usize, bool)> = None;
     let mut implied_steps = 0u64;
@@ -379,7 +439,7 @@ pub fn run_case(case: &Case, st: &mut Stats) -> CaseResult {
 impl SubCheckT for History {
     type Case = Case;
     const NAME: &'static str = "history";
-    const RULE: &'static str = "random CNF (n<=6, <=10 clauses of length 1..4 incl. duplicates, tautologies, units, occasional empty clause, contradiction cores) x <=40 decide/pop operations (pop only above the initial state; re-decisions kept). After construction and every step: is_set agrees with the model rebuilt from difference_iter; every assigned literal is entailed (truth-table brute force); UNSAT only if no model extends the decisions; otherwise no falsified clause and no unsatisfied clause with exactly one unassigned literal; is_sat iff every non-tautological clause has a true literal; pop restores model/hash/is_sat/difference; equal hashes => equal residuals (when <=26 literal occurrences keep the prime product below 2^128); a fresh solver replaying the surviving decisions agrees. Non-trivial: a pop followed by a different decision and a step that implied a literal beyond the decided one";
+    const RULE: &'static str = "random CNF (n<=6, <=10 clauses of length 1..4 incl. duplicates, tautologies, units, occasional empty clause, contradiction cores) x <=40 decide/pop operations (pop only above the initial state; re-decisions kept). After construction and every step: is_set agrees with the model rebuilt from difference_iter; every assigned literal is entailed (truth-table brute force); UNSAT only if no model extends the decisions; otherwise no falsified clause and no unsatisfied clause with exactly one unassigned literal; is_sat iff every non-tautological clause has a true literal; pop restores model/hash/is_sat/difference; equal hashes => equal residuals (when <=26 literal occurrences keep the prime product below 2^128), over the history's states and over a systematic decide/pop sweep of all states at depth <=2; a fresh solver replaying the surviving decisions agrees. Non-trivial: a pop followed by a different decision and a step that implied a literal beyond the decided one";
     fn cases(tier: Tier) -> u32 {
         tier.pick(5000, 200_000)
     }
